@@ -661,6 +661,7 @@ class Interp(ExprMixin, CallMixin):
                 break
             reset_names()
             path = Path(self.solver, prefix, f"{name}#{n}")
+            path.quantified = getattr(self, "quantified", False)
             self.path = path
             self.depth = 0
             self.frames = []
@@ -685,6 +686,30 @@ class Interp(ExprMixin, CallMixin):
         res.solver_time = self.solver.time
         res.functions_entered = set(self.functions_entered)
         return res
+
+
+    def frontier(self, harness, depth):
+        """prefixes partitioning the path space: every complete path shorter than `depth` decisions, and
+        every feasible decision prefix of length `depth`."""
+        leaves = []
+        work = [[]]
+        while work:
+            prefix = work.pop()
+            reset_names()
+            path = Path(self.solver, prefix, "frontier")
+            path.quantified = getattr(self, "quantified", False)
+            path.check_obligations = False
+            path.stop_at = depth
+            self.path = path
+            self.depth = 0
+            self.frames = []
+            try:
+                harness(self)
+            except (PathEnd, Unsupported, PyRaise):
+                pass
+            leaves.append(list(path.taken))
+            work.extend(path.alts)
+        return leaves
 
 
 class RunResult:
